@@ -7,6 +7,7 @@ import Continuum.Schema
 import Continuum.Rel
 import Continuum.Mgr
 import Continuum.Lemmas.UowLive
+import Continuum.Spec.Links
 
 /-!
 # Line-protocol driver
@@ -41,6 +42,9 @@ structure DState where
   schIn : Option Schema.TblIn := none
   arows : List ARow := []
   mgr : Mgr := {}
+  segLinks : List Link := []      -- live links at the last boundary (implementation, by SQL)
+  pendLinks : List Link := []
+  mLinks : List Link := []        -- the same for the model's segment
   schOut : Option Schema.TblOut := none
   wfFirst : String := "-"     -- the first event that did not
   nev : Nat := 0
@@ -245,9 +249,13 @@ def handle (st : DState) (toks : List String) : DState × Option String :=
     match parseNat tid, parseKey pk, parseVals vals with
     | some tid, some pk, some vals => ({ st with pend := { st.pend with live := st.pend.live ++ [((tid, pk), vals)] } }, none)
     | _, _, _ => (st, bad)
+  | ["ilk", tid, link] =>
+    match parseNat tid, parseKey link with
+    | some tid, some link => ({ st with pendLinks := st.pendLinks ++ [(tid, link)] }, none)
+    | _, _ => (st, bad)
   | ["qchain"] =>
     let r := decideB (C03.Holds st.cfg st.pend.db.versions)
-    ({ st with pend := {} }, some r)
+    ({ st with pend := {}, pendLinks := [] }, some r)
   | ["qseg", oc] =>
     let outcome := if oc == "rollback" then Outcome.rollback else Outcome.commit
     let seg : Seg := { before := st.segBefore, evs := st.segEvs, outcome := outcome, after := st.pend }
@@ -257,8 +265,15 @@ def handle (st : DState) (toks : List String) : DState × Option String :=
     let mseg : Seg := { before := st.mBefore, evs := st.segEvs, outcome := outcome, after := modelObs st.st }
     let m01 := s!"{decideB (mseg.outcome = .commit → C01.newestIsLive mseg)}{decideB (mseg.outcome = .commit → C01.removedIsDelete mseg)}{decideB (mseg.outcome = .commit → C01.onlyRealChanges st.cfg mseg)}{decideB (mseg.outcome = .commit → C01.changedHasRow mseg)}{decideB (mseg.outcome = .commit → C01.deleteVals st.cfg mseg)}{decideB (mseg.outcome = .commit → C01.pastKept mseg)}"
     let mout := s!"{m01} {decideB (C02.Holds st.cfg mseg)} {decideB (C03.Holds st.cfg mseg.after.db.versions)} {decideB (C06.DbHolds mseg)} {decideB (C11.Holds st.cfg mseg)} {decideB (C17.Holds st.cfg mseg)}"
-    ({ st with segBefore := st.pend, segEvs := [], pend := {}, mBefore := modelObs st.st },
-      some s!"{out} | {mout} | {showBool st.wf} {st.wfFirst} {decideB (CfgOK st.cfg ∧ TablesNodup st.cfg ∧ ColsInRange st.cfg)}")
+    -- C10: links
+    let la := applyAssoc st.cfg st.segLinks st.segEvs
+    let sameLinks := decideB (seg.outcome = .commit → ((∀ x ∈ la, x ∈ st.pendLinks) ∧ (∀ x ∈ st.pendLinks, x ∈ la)))
+    let c10 := s!"{decideB (C10.Holds st.cfg seg st.segLinks)}{sameLinks}"
+    let m10 := decideB (OncePerTx st.cfg st.segEvs → st.st.err = false → C10.Holds st.cfg mseg st.mLinks)
+    let mla := if outcome = .commit then applyAssoc st.cfg st.mLinks st.segEvs else st.mLinks
+    ({ st with segBefore := st.pend, segEvs := [], pend := {}, mBefore := modelObs st.st,
+               segLinks := st.pendLinks, pendLinks := [], mLinks := mla },
+      some s!"{out} {c10} | {mout} {m10} | {showBool st.wf} {st.wfFirst} {decideB (CfgOK st.cfg ∧ TablesNodup st.cfg ∧ ColsInRange st.cfg)} {decideB (OncePerTx st.cfg st.segEvs)}")
   | ["qdump", _] => (st, some (showModelDump st.st))
   | ["s12in", name, schema, hasModel, single, excl, incl, f1, f2, validity, tx, en, op, mt] =>
     match parseName name, parseOName schema, parseBool hasModel, parseBool single, parseNames excl, parseNames incl,
